@@ -35,6 +35,8 @@ CORPUS = [
     "(fn [c] (if c (do (throw (ex-info \"x\" {})) (def dead-x 1)) nil) (def dead-x 2))",
     "(fn [d k] (operator/delitem d k) d)", "(fn [d k] [(operator/delitem d k) d])", "(fn [d k] (if (operator/delitem d k) 1 2))",
     "(fn [d k v] [(operator/setitem d k v) d])",
+    "(def c15-v 1)", "(fn [] (let [old c15-v] (def c15-v 2) [old c15-v]))", "(fn [] (def c15-v 1) (fn ^:async g [] (def c15-v 2) nil))",
+    "(fn [c] (if c15-v (do (def c15-v 2) c15-v) 0))",
     "(fn [x] (try x (finally 2)))", "(fn [x] (try (x) (finally nil)))", "(fn [x] (do (try (x) (finally (if x 1 2))) 3))",
 ]
 
@@ -132,6 +134,10 @@ def synthetic_pairs(alias):
         "delitem-statement": f"{alias}.delitem(a, b)\nr = a\n",
         "delitem-statement-calls": f"{alias}.delitem(f(), g())\n",
         "delitem-in-expression": f"r = [{alias}.delitem(a, b), a]\n",
+        "global-after-use": "def f():\n    y = x\n    global x\n    x = 1\n    return y\n",
+        "global-in-branch-after-use": "def f(c):\n    if x:\n        global x\n        x = 2\n    return x\n",
+        "async-nested-global": "def f():\n    global a\n    a = 1\n    async def g():\n        global a\n        a = 2\n    return g\n",
+        "nested-global-only-inner": "def f():\n    a = 1\n    def g():\n        global a\n        a = 2\n    return g\n",
         "handler-dead": "try:\n    a()\nexcept E as e:\n    return b()\n    c()\n",
     }
     for k, v in stmts.items():
